@@ -68,12 +68,14 @@ def cases(tier, seed):
             out.append({"family": "rigid_body", "nops": nops})
         elif r < 10:
             k = ROD_KINDS[int(rng.integers(len(ROD_KINDS)))]
-            out.append({"family": "rod", "interp": k[0], "p": k[1], "mixed": bool(rng.random() < 0.4), "nel": int(rng.integers(1, 4)),
+            out.append({"family": "rod", "interp": k[0], "p": k[1], "mixed": bool(rng.random() < 0.4),
+                        # (now and then a finer mesh: element boundaries i/nel that are not dyadic fractions)
+                        "nel": int(rng.integers(1, 4)) if rng.random() < 0.8 else int(rng.choice([6, 7, 10])),
                         "nops": int(rng.integers(15, 70))})
         elif r < 15:
             out.append({"family": "s2s", "pair": list(S2S_PAIRS[int(rng.integers(len(S2S_PAIRS)))]), "nops": nops})
         elif r < 18:
-            out.append({"family": "mesh", "degree": int(rng.integers(1, 4)), "nel": int(rng.integers(1, 5)),
+            out.append({"family": "mesh", "degree": int(rng.integers(1, 4)), "nel": int(rng.choice([1, 2, 3, 4, 5, 6, 7, 9, 10, 12, 16, 25])),
                         "basis": ["Lagrange", "Lagrange_Disc"][int(rng.integers(2))], "nops": nops})
         elif r < 22:
             out.append({"family": "system"})
@@ -548,7 +550,7 @@ def run_mesh(spec, ctx, ct, log):
     ctx.cls(f"mesh:{spec['basis']}:p{deg}")
     xis = [0.0, 1.0, float(rng.uniform(0, 1)), float(rng.uniform(0, 1)), 0, 1]
     if nel > 1:
-        xis += [int(rng.integers(1, nel)) / nel, int(rng.integers(1, nel)) / nel]
+        xis += [int(rng.integers(1, nel)) / nel for _ in range(2 if nel < 5 else 5)]
     reassembled = False
     for _ in range(spec["nops"]):
         kx, xi = _pick(rng, xis)
